@@ -7,6 +7,7 @@ import (
 	"runtime"
 	"strings"
 	"sync"
+	"sync/atomic"
 	"time"
 
 	mqtt "github.com/at-wat/mqtt-go"
@@ -639,6 +640,13 @@ func Exec(sc *Scenario) *Run {
 			// The first sentinel may have been acknowledged from inside a running Retry task that still
 			// has re-subscriptions behind it. A second sentinel is a new task: it runs only after that
 			// task returned, so its acknowledgement proves the task goroutine has drained everything.
+			if rl, isLoop := cli.(*retryLoop); isLoop {
+				// the hand-written loop pushes Retry and Resubscribe one after the other; the second
+				// sentinel must come after both
+				for i := 0; i < 40000 && !rl.SetupDone(); i++ {
+					time.Sleep(50 * time.Microsecond)
+				}
+			}
 			submit(9998, Step{Op: "pub", QoS: 1, Tag: Sentinel2})
 			ok = tr.WaitFor(Watchdog, func() bool { return AckConsumedLocked(tr, "P:"+Sentinel2) })
 		}
@@ -903,7 +911,11 @@ type retryLoop struct {
 	stop, done    chan struct{}
 	first         chan error
 	stopOnce      sync.Once
+	setupPending  int32 // connections whose Resubscribe/Retry tasks have not both been pushed yet
 }
+
+// SetupDone reports whether the loop has pushed the tasks of every established connection.
+func (l *retryLoop) SetupDone() bool { return atomic.LoadInt32(&l.setupPending) == 0 }
 
 func (l *retryLoop) Connect(ctx context.Context, clientID string, opts ...mqtt.ConnectOption) (bool, error) {
 	go l.run(clientID, opts)
@@ -945,11 +957,13 @@ func (l *retryLoop) run(clientID string, opts []mqtt.ConnectOption) {
 			}
 			continue
 		}
+		atomic.AddInt32(&l.setupPending, 1) // until Resubscribe/Retry of this connection are both pushed
 		l.RetryClient.SetClient(ctx, baseCli)
 		cctx, cancel := context.WithTimeout(ctx, time.Duration(l.to)*time.Millisecond)
 		sp, err := l.RetryClient.Connect(cctx, clientID, opts...)
 		cancel()
 		if err != nil {
+			atomic.AddInt32(&l.setupPending, -1)
 			baseCli.Close()
 			<-baseCli.Done()
 			if !sleep() {
@@ -970,6 +984,7 @@ func (l *retryLoop) run(clientID string, opts []mqtt.ConnectOption) {
 			}
 			l.RetryClient.Retry(ctx)
 		}
+		atomic.AddInt32(&l.setupPending, -1)
 		if !initialized {
 			initialized = true
 			l.first <- nil
